@@ -36,7 +36,7 @@ determinism() {
     done
     echo "selftest determinism: $2: $3 seeds x 10 executions (workers 1/3/5/16, GOMAXPROCS 1/2/4/16) identical: $first"
   done
-  if grep -rn "\.Range(" "$VERIF/sim" --include=*.go | grep -v "r\.Range(\|rng\.Range(" ; then echo "SELFTEST-FAIL determinism: sync.Map-style Range found in harness sources"; rc=2; fi
+  if grep -rn "sync\.Map\|\.Range(func" "$VERIF/sim" --include=*.go; then echo "SELFTEST-FAIL determinism: sync.Map found in harness sources"; rc=2; fi
 }
 sensitivity() {
   # every seeded defect kept under /verif/seeded must be reported by the quick
